@@ -35,6 +35,17 @@ WITNESS = {
     "F29": (["xsv dateTime " + G.hx("2000-01-01T00:00:00.Z"), "pe dateTime " + G.hx("2000-01-01T00:00:00.+01:00")], ["1", "valid"], "f29",
             "xs:dateTime accepts a decimal point with no fraction digit when a time zone follows ('00:00:00.Z'): "
             "XMLDateTime::getTime only tests that something follows the '.', then parseMiliSecond over an empty range"),
+    "F30": (["cmp dateTime %s %s" % (G.hx("2000-01-01T12:00:00"), G.hx("2000-01-01T12:00:00+14:00"))], ["0"], "f30",
+            "DatatypeValidator::compare on xs:dateTime returns EQUAL (0) for an unzoned and a zoned value that are exactly "
+            "14 hours apart; by Part 2 section 3.2.7.4 such a pair is indeterminate, never equal"),
+    "F31": (["cmp dateTime %s %s" % (G.hx("2000-01-01T24:00:00"), G.hx("2000-01-02T00:00:00")),
+             "xsc dateTime " + G.hx("2000-01-01T24:00:00")], ["-1", "ok " + G.hx("2000-01-01T00:00:00")], "f31",
+            "xs:dateTime hour 24 is not carried into the following day: 2000-01-01T24:00:00 compares less than "
+            "2000-01-02T00:00:00 (the same instant) and its canonical form is 2000-01-01T00:00:00 (a day earlier)"),
+    "F32": (["xsc dateTime " + G.hx("0001-01-01T05:00:00+14:00")], ["ok " + G.hx("0000-12-31T15:00:00Z")], "f32",
+            "time-zone normalisation of a dateTime in year 0001 steps into year 0000, which does not exist in XML Schema 1.0: "
+            "the canonical form of 0001-01-01T05:00:00+14:00 is 0000-12-31T15:00:00Z, which is not in the lexical space "
+            "(XSValue rejects it) -- XMLDateTime::normalize decrements the year without skipping 0"),
     "F12": (["xsv base64Binary " + G.hx("\u0141AAA"), "pe base64Binary " + G.hx("\u0141AAA"),
              "xsv base64Binary " + G.hx("AAAA\u0100!!")], ["1", "valid", "1"], "f12",
             "base64Binary narrows UTF-16 code units to bytes: a character >= U+0100 whose low byte is a base64 letter is "
@@ -191,8 +202,8 @@ def run(ctx):
     # ---- 3b. follow-up requests built from the implementation's answers (canonical forms judged by the Spec,
     #          idempotence asked from the implementation itself)
     fu = []
-    for (kind, req), i in zip(cases, impl):
-        fu += G.followups(req, i)
+    for k, ((kind, req), i) in enumerate(zip(cases, impl)):
+        fu += G.followups(req, i, spec.get(k))
     for target, binp in (("spec", xm), ("impl", xh)):
         sel = [f for f in fu if f[0] == target]
         if not sel:
